@@ -176,3 +176,415 @@ theorem C05_svd_isometry {α : Type} [CommRing α] [StarRing α] (a : BMat α) (
           exact hV e.1 (List.fst_mem_of_mem_zipIdx hee) c hc c' hc')
         (t, k) (t', k') he he' c c' (by rw [hsz _ he]; exact hc) (by rw [hsz _ he']; exact hc')
       simpa [bentry_eq_bsum] using this
+
+namespace TenpyModel.C05
+variable {α : Type} [CommRing α]
+
+/-- eigenvalues of inner block `k` as stored by `eigAssemble` (0 for a sector without stored block) -/
+def eigW (facs : List (Nat × List α × Mat α)) (k s : Nat) : α :=
+  match lastWithQi facs k with
+  | some f => f.1.getD s 0
+  | none => 0
+
+theorem exists_zipIdx_of_mem {β : Type} {l : List β} {x : β} (h : x ∈ l) : ∃ i, (x, i) ∈ l.zipIdx := by
+  obtain ⟨i, hi, rfl⟩ := List.mem_iff_getElem.mp h
+  exact ⟨i, List.mem_zipIdx_iff_getElem?.mpr (by simp [hi])⟩
+
+theorem eigFacs_pairwise (m : BMat α) (F : Nat → Blk α → List α × Mat α) (perm : Nat → List α → List Nat)
+    (hrows : m.blocks.Pairwise (fun b b' => b.qi ≠ b'.qi)) :
+    (eigFacs m F perm).Pairwise (fun x y => x.1 ≠ y.1) := by
+  unfold eigFacs
+  rw [List.pairwise_map]
+  have := (List.zipIdx_map_fst 0 m.blocks).symm
+  rw [this] at hrows
+  exact (List.pairwise_map (f := Prod.fst) (R := fun x y : Blk α => x.qi ≠ y.qi)).mp hrows
+
+end TenpyModel.C05
+
+/-- **Eigen-decomposition, assembly** (`eigh` / `eig`, any `sort`): if `A_b V_b = V_b diag(w_b)` holds for the (sorted)
+factors of every stored block, then `a · V = V · diag(w)` globally; sectors without stored block contribute the
+identity with eigenvalue 0. Hypotheses on the completely blocked `a`: stored blocks are diagonal (`qj = qi`; the legs
+are contractible and sorted alike) and lie in pairwise different sectors. -/
+theorem C05_eig_assemble {α : Type} [CommRing α] (m : BMat α) (F : Nat → Blk α → List α × Mat α)
+    (perm : Nat → List α → List Nat)
+    (hdiag : ∀ b ∈ m.blocks, b.qj = b.qi) (hrows : m.blocks.Pairwise (fun b b' => b.qi ≠ b'.qi))
+    (hin : ∀ b ∈ m.blocks, b.qi < m.leg0.blockNumber) (hsz : m.leg0.blockSizes.length = m.leg0.blockNumber)
+    (hpost : ∀ bi ∈ m.blocks.zipIdx, ∀ r s,
+      ∑ c ∈ range (m.leg0.blockSizes.getD bi.1.qi 0), bi.1.m.entry r c * (eigFac F perm bi).2.entry c s
+        = (eigFac F perm bi).2.entry r s * (eigFac F perm bi).1.getD s 0)
+    (qi r k s : Nat) :
+    bmul3 m.blocks (fun _ _ => 1) (eigAssemble m F perm).v.blocks m.leg0.blockSizes qi r k s
+      = (eigAssemble m F perm).v.bentry qi r k s * eigW (eigFacs m F perm) k s := by
+  have hpw := eigFacs_pairwise m F perm hrows
+  rw [bmul3_left_linear _ _ _ _ (fun x hx => by rw [hsz, hdiag x hx]; exact hin x hx)]
+  simp only [eigAssemble, bentry_eq_bsum, bsum_range_diag, mul_one]
+  rw [sum_unique_key m.blocks (fun b => b.qi) hrows _ qi]
+  cases hf : m.blocks.find? (fun b => b.qi == qi) with
+  | none =>
+    simp only
+    by_cases hk : qi < m.leg0.blockNumber ∧ k = qi
+    · have hnone : lastWithQi (eigFacs m F perm) k = none := by
+        apply lastWithQi_none
+        intro x hx
+        obtain ⟨bi, hbi, rfl⟩ := List.mem_map.mp hx
+        have := List.find?_eq_none.mp hf bi.1 (List.fst_mem_of_mem_zipIdx hbi)
+        simp only [beq_iff_eq] at this
+        rw [hk.2]; exact this
+      simp [eigW, hnone]
+    · simp [hk]
+  | some b =>
+    have hb := List.mem_of_find?_eq_some hf
+    have hbq : b.qi = qi := by simpa using List.find?_some hf
+    obtain ⟨i, hi⟩ := exists_zipIdx_of_mem hb
+    have hlast : lastWithQi (eigFacs m F perm) qi = some (eigFac F perm (b, i)) := by
+      have := lastWithQi_of_mem (eigFacs m F perm) hpw (b.qi, eigFac F perm (b, i))
+        (List.mem_map.mpr ⟨(b, i), hi, rfl⟩)
+      rw [← hbq]; exact this
+    simp only [hdiag b hb, hbq]
+    by_cases hk : k = qi
+    · subst hk
+      have hlt : k < m.leg0.blockNumber := hbq ▸ hin b hb
+      have := hpost (b, i) hi r s
+      simp only [hbq, List.getD_eq_getElem?_getD] at this
+      simp [hlt, hlast, eigW, this]
+    · simp [hk]
+
+/-- **expm, assembly**: the result is block diagonal; its block `k` is the per-block exponential of the stored block in
+sector `k`, and the identity (`= exp 0`) for a sector without stored block. (That the exponential of a block-diagonal
+matrix is the block-diagonal matrix of the exponentials is `C05_expm_blockdiag` in `PropsAlgebra.lean`.) -/
+theorem C05_expm_assemble {α : Type} [CommRing α] (m : BMat α) (F : Nat → Blk α → Mat α)
+    (hrows : m.blocks.Pairwise (fun b b' => b.qi ≠ b'.qi)) (qi r qj s : Nat) :
+    (expmAssemble m F).bentry qi r qj s
+      = if qi < m.leg0.blockNumber ∧ qj = qi then
+          (match m.blocks.zipIdx.find? (fun bi => bi.1.qi == qi) with
+           | some bi => (F bi.2 bi.1).entry r s
+           | none => (Mat.eye (m.leg0.blockSizes.getD qi 0) : Mat α).entry r s)
+        else 0 := by
+  simp only [expmAssemble, bentry_eq_bsum, bsum_range_diag]
+  by_cases h : qi < m.leg0.blockNumber ∧ qj = qi
+  · simp only [h, and_self, ↓reduceIte]
+    have hpw : (m.blocks.zipIdx.map (fun bi => (bi.1.qi, F bi.2 bi.1))).Pairwise (fun x y => x.1 ≠ y.1) := by
+      rw [List.pairwise_map]
+      have := (List.zipIdx_map_fst 0 m.blocks).symm
+      rw [this] at hrows
+      exact (List.pairwise_map (f := Prod.fst) (R := fun x y : Blk α => x.qi ≠ y.qi)).mp hrows
+    cases hf : m.blocks.zipIdx.find? (fun bi => bi.1.qi == qi) with
+    | none =>
+      rw [lastWithQi_none]
+      intro x hx
+      obtain ⟨bi, hbi, rfl⟩ := List.mem_map.mp hx
+      simpa using List.find?_eq_none.mp hf bi hbi
+    | some bi =>
+      have hbi := List.mem_of_find?_eq_some hf
+      have hq : bi.1.qi = qi := by simpa using List.find?_some hf
+      have := lastWithQi_of_mem _ hpw (bi.1.qi, F bi.2 bi.1) (List.mem_map.mpr ⟨bi, hbi, rfl⟩)
+      rw [hq] at this
+      simp [this]
+  · simp only [h, ↓reduceIte]
+
+/-- **Full SVD, what holds (unitarity)**: on the sectors that ARE stored, `U` is unitary: for kept blocks `t, t'`
+columns `(t.qi, c)`, `(t'.qi, c')` are orthonormal and rows likewise (same for `VH`, by symmetry). Hence `U` is unitary
+if every sector of `a.legs[0]` carries a stored block — the hypothesis the real code needs and does not check. -/
+theorem C05_svd_full_unitary_partial {α : Type} [CommRing α] [StarRing α] (a : BMat α) (F : Nat → Blk α → SvdFac α)
+    (keepP : α → Bool) (o : SvdOpts) (qL qR : Charge) (r : SvdOut α) (hfull : o.full = true)
+    (hrows : a.blocks.Pairwise (fun b b' => b.qi ≠ b'.qi))
+    (hin0 : ∀ b ∈ a.blocks, b.qi < a.leg0.blockNumber)
+    (hU : ∀ t ∈ svdKept a F o.cutoff keepP, ∀ c < a.leg0.blockSizes.getD t.1.qi 0,
+      ∀ c' < a.leg0.blockSizes.getD t.1.qi 0,
+      (∑ x ∈ range (a.leg0.blockSizes.getD t.1.qi 0), star (t.2.2.u.entry x c) * t.2.2.u.entry x c'
+        = if c = c' then 1 else 0)
+      ∧ (∑ x ∈ range (a.leg0.blockSizes.getD t.1.qi 0), t.2.2.u.entry c x * star (t.2.2.u.entry c' x)
+        = if c = c' then 1 else 0))
+    (h : svdWorker a F keepP o qL qR = .ok r)
+    (t t' : Blk α × Nat × SvdFac α) (ht : t ∈ svdKept a F o.cutoff keepP) (ht' : t' ∈ svdKept a F o.cutoff keepP)
+    (c c' : Nat) (hc : c < a.leg0.blockSizes.getD t.1.qi 0) (hc' : c' < a.leg0.blockSizes.getD t'.1.qi 0) :
+    (∑ qi ∈ range a.leg0.blockNumber, ∑ x ∈ range (a.leg0.blockSizes.getD qi 0),
+        star (r.u.bentry qi x t.1.qi c) * r.u.bentry qi x t'.1.qi c' = if t.1.qi = t'.1.qi ∧ c = c' then 1 else 0)
+    ∧ (∑ qj ∈ range a.leg0.blockNumber, ∑ x ∈ range (a.leg0.blockSizes.getD qj 0),
+        r.u.bentry t.1.qi c qj x * star (r.u.bentry t'.1.qi c' qj x) = if t.1.qi = t'.1.qi ∧ c = c' then 1 else 0) := by
+  simp only [svdWorker, hfull] at h
+  split at h
+  · cases h
+  · simp only [↓reduceIte, Except.ok.injEq] at h
+    subst h
+    have hpw := svdKept_pairwise a F o.cutoff keepP (fun b => b.qi) hrows
+    constructor
+    · have := biso_assemble (svdKept a F o.cutoff keepP) (fun t => (⟨t.1.qi, t.1.qi, t.2.2.u⟩ : Blk α))
+        (fun t => t.1.qi) a.leg0.blockSizes a.leg0.blockSizes a.leg0.blockNumber
+        (fun _ _ => rfl) hpw (fun e he => hin0 e.1 (mem_svdKept' he)) (fun _ _ _ _ hq => hq)
+        (fun e he c hc c' hc' => (hU e he c hc c' hc').1) t t' ht ht' c c' hc hc'
+      simpa [bentry_eq_bsum] using this
+    · have := biso_assemble_row (svdKept a F o.cutoff keepP) (fun t => (⟨t.1.qi, t.1.qi, t.2.2.u⟩ : Blk α))
+        (fun t => t.1.qi) a.leg0.blockSizes a.leg0.blockSizes a.leg0.blockNumber
+        (fun _ _ => rfl) hpw (fun e he => hin0 e.1 (mem_svdKept' he)) (fun _ _ _ _ hq => hq)
+        (fun e he c hc c' hc' => (hU e he c hc c' hc').2) t t' ht ht' c c' hc hc'
+      simpa [bentry_eq_bsum] using this
+
+/-- witness: `a` has two sectors of size 1 on each leg, only the block `(0, 0) = [[2]]` is stored (sector 1 is
+zero); per-block SVD `[[2]] = [[1]] · diag(2) · [[1]]`. -/
+def cexFullA : BMat Int :=
+  { leg0 := { mods := [1], slices := [0, 1, 2], charges := [[0], [1]], qconj := 1, sorted := true, bunched := true },
+    leg1 := { mods := [1], slices := [0, 1, 2], charges := [[0], [1]], qconj := -1, sorted := true, bunched := true },
+    qtotal := [0], blocks := [⟨0, 0, [[2]]⟩] }
+
+/-- **Full SVD, what fails (unitarity)**: the real code builds `U._qdata` from `a._qdata` only; a sector of
+`a.legs[0]` without stored block gets NO block in `U`, so the corresponding column of `U` is zero: `(Uᴴ U)` at
+`(sector 1, 0)` is `0`, not `1` — although the input passes `test_sanity`, the per-block factors are exact and unitary,
+and the reduced SVD of the same input is an isometry (`U = [[1], [0]]`). Replayed on the implementation as `corpus` case 0 of
+`harness/C05.py`. -/
+theorem C05_svd_full_counterexample :
+    cexFullA.sane = true ∧
+    (match svdWorker cexFullA (fun _ _ => ⟨[[1]], [2], [[1]]⟩) (fun _ => true) { full := true } [0] [0] with
+     | .ok r => decide (r.u.toDense = [[1, 0], [0, 0]]) && decide (r.vh.toDense = [[1, 0], [0, 0]]) && r.u.sane
+                && decide (r.u.bentry 0 0 1 0 = 0 ∧ r.u.bentry 1 0 1 0 = 0)
+     | .error _ => false) = true ∧
+    (match svdWorker cexFullA (fun _ _ => ⟨[[1]], [2], [[1]]⟩) (fun _ => true) { full := false } [0] [0] with
+     | .ok r => decide (r.u.toDense = [[1], [0]]) && decide (r.vh.toDense = [[1, 0]])
+     | .error _ => false) = true := by
+  decide
+
+namespace TenpyModel.C05
+variable {α : Type} [CommRing α]
+
+theorem zipWith_map_zipIdx {β γ δ ε : Type} (l : List β) (n : Nat) (p : β → γ) (g : β × Nat → δ) (f : γ → δ → ε) :
+    List.zipWith f (l.map p) ((l.zipIdx n).map g) = (l.zipIdx n).map (fun bi => f (p bi.1) (g bi)) := by
+  induction l generalizing n with
+  | nil => rfl
+  | cons x l ih => simp [ih (n + 1)]
+
+end TenpyModel.C05
+
+/-- **QR, assembly (structural form, any mode)**: `Q` has one block `(qi_e, κ_e)` and `R` one block `(κ_e, qj_e)` per
+factorized block `e`, with pairwise different inner indices `κ_e` (`map_qind[qi_e]`, or `qi_e` in complete mode); if
+`Q_e R_e = A_e` block-wise then `Q · R` is `A` with every block in its place. (Also used for `lq` via transposition.) -/
+theorem C05_qr_assemble {α : Type} [CommRing α] {E : Type} (L : List E) (fQ fR : E → Blk α) (κ : E → Nat)
+    (sz : List Nat) (A : E → Mat α)
+    (hQ : ∀ e ∈ L, (fQ e).qj = κ e) (hR : ∀ e ∈ L, (fR e).qi = κ e)
+    (hinj : L.Pairwise (fun e e' => κ e ≠ κ e')) (hlt : ∀ e ∈ L, κ e < sz.length)
+    (hpost : ∀ e ∈ L, ∀ r s,
+      ∑ c ∈ range (sz.getD (κ e) 0), (fQ e).m.entry r c * (fR e).m.entry c s = (A e).entry r s)
+    (qi r qj s : Nat) :
+    bmul3 (L.map fQ) (fun _ _ => 1) (L.map fR) sz qi r qj s
+      = (L.map (fun e => if (fQ e).qi = qi ∧ (fR e).qj = qj then (A e).entry r s else 0)).sum := by
+  rw [bmul3_assemble L fQ fR κ _ sz hQ hR hinj hlt]
+  apply congrArg
+  apply List.map_congr_left
+  intro e he
+  simp only [mul_one]
+  rw [hpost e he r s]
+
+/-- **QR, assembly, `mode='complete'`** (no cutoff; any `pos_diag_R`, `qtotal_Q`, `inner_qconj`): if `Q_b R_b = A_b` for
+every stored block then `Q · R = a`; the identity blocks that `qr` adds to `Q` for the sectors without stored block
+(hypothesis `hextra`: these are sectors in which `a` has no block) do not contribute. -/
+theorem C05_qr_assemble_complete {α : Type} [CommRing α] (a : BMat α) (F : Nat → Blk α → Mat α × Mat α)
+    (phase conj : α → α) (o : QrOpts) (hc : o.complete = true) (hcut : o.cutoff = false)
+    (hrows : a.blocks.Pairwise (fun b b' => b.qi ≠ b'.qi))
+    (hin0 : ∀ b ∈ a.blocks, b.qi < a.leg0.blockNumber) (hsz : a.leg0.blockSizes.length = a.leg0.blockNumber)
+    (hextra : ∀ x ∈ (qrWorker a F phase conj o).q.blocks.drop a.blocks.length,
+      x.qj < a.leg0.blockNumber ∧ ∀ b ∈ a.blocks, b.qi ≠ x.qj)
+    (hpost : ∀ bi ∈ a.blocks.zipIdx, ∀ r s,
+      ∑ c ∈ range (a.leg0.blockSizes.getD bi.1.qi 0),
+        (qrFac F phase conj o bi).1.entry r c * (qrFac F phase conj o bi).2.entry c s = bi.1.m.entry r s)
+    (qi r qj s : Nat) :
+    bmul3 (qrWorker a F phase conj o).q.blocks (fun _ _ => 1) (qrWorker a F phase conj o).r.blocks
+        a.leg0.blockSizes qi r qj s = a.bentry qi r qj s := by
+  -- shape of the two block lists
+  have hfacs : a.blocks.zipIdx.filterMap (fun bi =>
+      if o.cutoff && ((F bi.2 bi.1).1.nrows * (F bi.2 bi.1).1.ncols == 0) then none
+      else some (bi.1, qrFac F phase conj o bi))
+      = a.blocks.zipIdx.map (fun bi => (bi.1, qrFac F phase conj o bi)) := by
+    simp [hcut]
+  have hR : (qrWorker a F phase conj o).r.blocks
+      = a.blocks.zipIdx.map (fun bi => (⟨bi.1.qi, bi.1.qj, (qrFac F phase conj o bi).2⟩ : Blk α)) := by
+    simp only [qrWorker, hc, hfacs, Bool.not_true, Bool.false_eq_true, ↓reduceIte]
+    exact zipWith_map_zipIdx a.blocks 0 _ _ _
+  have hQ : ∃ extra, (qrWorker a F phase conj o).q.blocks
+      = a.blocks.zipIdx.map (fun bi => (⟨bi.1.qi, bi.1.qi, (qrFac F phase conj o bi).1⟩ : Blk α)) ++ extra := by
+    simp only [qrWorker, hc, hfacs, Bool.not_true, Bool.false_eq_true, ↓reduceIte]
+    exact ⟨_, congrArg (· ++ _) (zipWith_map_zipIdx a.blocks 0 _ _ _)⟩
+  obtain ⟨extra, hQ⟩ := hQ
+  have hextra' : ∀ x ∈ extra, x.qj < a.leg0.blockNumber ∧ ∀ b ∈ a.blocks, b.qi ≠ x.qj := by
+    intro x hx
+    apply hextra
+    rw [hQ, List.drop_append_of_le_length (by simp)]
+    exact List.mem_append_right _ hx
+  have hpwz : (a.blocks.zipIdx).Pairwise (fun x y => x.1.qi ≠ y.1.qi) := by
+    have := (List.zipIdx_map_fst 0 a.blocks).symm
+    rw [this] at hrows
+    exact (List.pairwise_map (f := Prod.fst) (R := fun x y : Blk α => x.qi ≠ y.qi)).mp hrows
+  rw [bmul3_left_linear _ _ _ _ (by
+    intro x hx
+    rw [hQ] at hx
+    rcases List.mem_append.mp hx with h1 | h1
+    · obtain ⟨bi, hbi, rfl⟩ := List.mem_map.mp h1
+      rw [hsz]; exact hin0 _ (List.fst_mem_of_mem_zipIdx hbi)
+    · rw [hsz]; exact (hextra' x h1).1)]
+  rw [hQ, hR, List.map_append, List.sum_append]
+  have hzero : (extra.map (fun x => if x.qi = qi then
+      ∑ c ∈ range (a.leg0.blockSizes.getD x.qj 0), x.m.entry r c * 1 *
+        bsum (a.blocks.zipIdx.map (fun bi => (⟨bi.1.qi, bi.1.qj, (qrFac F phase conj o bi).2⟩ : Blk α))) x.qj c qj s
+      else 0)).sum = 0 := by
+    apply List.sum_eq_zero
+    intro y hy
+    obtain ⟨x, hx, rfl⟩ := List.mem_map.mp hy
+    have : ∀ c, bsum (a.blocks.zipIdx.map (fun bi => (⟨bi.1.qi, bi.1.qj, (qrFac F phase conj o bi).2⟩ : Blk α)))
+        x.qj c qj s = 0 := by
+      intro c
+      apply bsum_eq_zero_of_qi
+      intro b hb
+      obtain ⟨bi, hbi, rfl⟩ := List.mem_map.mp hb
+      exact (hextra' x hx).2 bi.1 (List.fst_mem_of_mem_zipIdx hbi)
+    simp [this]
+  rw [hzero, add_zero, List.map_map]
+  rw [bentry_eq_bsum, bsum]
+  have hterm : ∀ bi ∈ a.blocks.zipIdx,
+      ((fun x : Blk α => if x.qi = qi then
+        ∑ c ∈ range (a.leg0.blockSizes.getD x.qj 0), x.m.entry r c * 1 *
+          bsum (a.blocks.zipIdx.map (fun bi => (⟨bi.1.qi, bi.1.qj, (qrFac F phase conj o bi).2⟩ : Blk α))) x.qj c qj s
+        else 0) ∘ fun bi : Blk α × Nat => (⟨bi.1.qi, bi.1.qi, (qrFac F phase conj o bi).1⟩ : Blk α)) bi
+      = (fun b : Blk α => if b.qi = qi ∧ b.qj = qj then b.m.entry r s else 0) bi.1 := by
+    intro bi hbi
+    simp only [Function.comp]
+    have := bsum_unique_row a.blocks.zipIdx
+      (fun bi => (⟨bi.1.qi, bi.1.qj, (qrFac F phase conj o bi).2⟩ : Blk α)) (fun bi => bi.1.qi) (fun _ _ => rfl)
+      hpwz bi hbi
+    simp only [this, mul_one]
+    by_cases h1 : bi.1.qi = qi
+    · by_cases h2 : bi.1.qj = qj
+      · simp only [h1, h2, and_self, ↓reduceIte]
+        rw [← h1]; exact hpost bi hbi r s
+      · simp [h1, h2]
+    · simp [h1]
+  rw [List.map_congr_left hterm]
+  exact map_fst_zipIdx_sum (α := α) a.blocks 0 (fun b : Blk α => if b.qi = qi ∧ b.qj = qj then b.m.entry r s else 0)
+
+/-- **QR, `mode='complete'`: the identity blocks.** The blocks that `qr` appends to `Q` after the factorized ones are
+exactly identity blocks `(q, q)` for the sectors `q` of `a.legs[0]` in which `a` has no stored block (the pointer walk
+over the sorted `have_q_qinds` is correct). -/
+theorem C05_qr_extra_blocks {α : Type} [CommRing α] (a : BMat α) (F : Nat → Blk α → Mat α × Mat α)
+    (phase conj : α → α) (o : QrOpts) (hc : o.complete = true) (hcut : o.cutoff = false)
+    (hrows : a.blocks.Pairwise (fun b b' => b.qi ≠ b'.qi)) :
+    ∀ x ∈ (qrWorker a F phase conj o).q.blocks.drop a.blocks.length,
+      x.qj < a.leg0.blockNumber ∧ (∀ b ∈ a.blocks, b.qi ≠ x.qj) ∧ x.qi = x.qj
+        ∧ x.m = Mat.eye (a.leg0.blockSizes.getD x.qj 0) := by
+  have hfacs : a.blocks.zipIdx.filterMap (fun bi =>
+      if o.cutoff && ((F bi.2 bi.1).1.nrows * (F bi.2 bi.1).1.ncols == 0) then none
+      else some (bi.1, qrFac F phase conj o bi))
+      = a.blocks.zipIdx.map (fun bi => (bi.1, qrFac F phase conj o bi)) := by
+    simp [hcut]
+  intro x hx
+  simp only [qrWorker, hc, hfacs, Bool.not_true, Bool.false_eq_true, ↓reduceIte] at hx
+  rw [zipWith_map_zipIdx a.blocks 0, List.drop_append_of_le_length (by simp),
+    List.drop_eq_nil_of_le (by simp), List.nil_append] at hx
+  have hx' : x ∈ (if a.blocks.length < a.leg0.blockNumber then
+      (missingQinds a.leg0.blockNumber (stableSort (fun x y => decide (x ≤ y)) (a.blocks.map (fun b => b.qi)))).map
+        (fun qi => (⟨qi, qi, Mat.eye (a.leg0.blockSizes.getD qi 0)⟩ : Blk α)) else []) := by
+    simpa [List.map_map, Function.comp_def] using hx
+  split at hx'
+  · obtain ⟨q, hq, rfl⟩ := List.mem_map.mp hx'
+    have hnd : (a.blocks.map (fun b => b.qi)).Nodup := by
+      rw [List.Nodup, List.pairwise_map]; exact hrows
+    have := (missingQinds_spec _ _ (stableSort_strict _ hnd) q).mp hq
+    refine ⟨this.1, ?_, rfl, rfl⟩
+    intro b hb hbq
+    apply this.2
+    rw [(stableSort_perm _).mem_iff]
+    exact List.mem_map.mpr ⟨b, hb, hbq⟩
+  · cases hx'
+
+/-- **QR, assembly, `mode='complete'`, unconditional form**: `C05_qr_assemble_complete` with its hypothesis on the
+identity blocks discharged by `C05_qr_extra_blocks`. -/
+theorem C05_qr_assemble_complete_full {α : Type} [CommRing α] (a : BMat α) (F : Nat → Blk α → Mat α × Mat α)
+    (phase conj : α → α) (o : QrOpts) (hc : o.complete = true) (hcut : o.cutoff = false)
+    (hrows : a.blocks.Pairwise (fun b b' => b.qi ≠ b'.qi))
+    (hin0 : ∀ b ∈ a.blocks, b.qi < a.leg0.blockNumber) (hsz : a.leg0.blockSizes.length = a.leg0.blockNumber)
+    (hpost : ∀ bi ∈ a.blocks.zipIdx, ∀ r s,
+      ∑ c ∈ range (a.leg0.blockSizes.getD bi.1.qi 0),
+        (qrFac F phase conj o bi).1.entry r c * (qrFac F phase conj o bi).2.entry c s = bi.1.m.entry r s)
+    (qi r qj s : Nat) :
+    bmul3 (qrWorker a F phase conj o).q.blocks (fun _ _ => 1) (qrWorker a F phase conj o).r.blocks
+        a.leg0.blockSizes qi r qj s = a.bentry qi r qj s :=
+  C05_qr_assemble_complete a F phase conj o hc hcut hrows hin0 hsz
+    (fun x hx => let h := C05_qr_extra_blocks a F phase conj o hc hcut hrows x hx; ⟨h.1, h.2.1⟩) hpost qi r qj s
+
+/-- **Flat indices ↔ block-structured indices.** A sum over the flat indices of a leg is the sum over its blocks of the
+sums within the blocks; `locate` (the model of `LegCharge.get_qindex`, used by `BMat.toDense`) is the bijection. With
+it every statement above about `∑ k, ∑ c` over an inner leg is the statement about the dense matrix product
+`∑ j` of `toDense`. -/
+theorem C05_locate_sum {M : Type} [AddCommMonoid M] (sizes : List Nat) (f : Nat → Nat → M) :
+    ∑ i ∈ range sizes.sum, f (locate sizes i).1 (locate sizes i).2
+      = ∑ k ∈ range sizes.length, ∑ c ∈ range (sizes.getD k 0), f k c := by
+  induction sizes generalizing f with
+  | nil => simp
+  | cons s ss ih =>
+    rw [List.sum_cons, Finset.sum_range_add, List.length_cons, Finset.sum_range_succ']
+    have h1 : ∑ x ∈ range s, f (locate (s :: ss) x).1 (locate (s :: ss) x).2 = ∑ c ∈ range s, f 0 c := by
+      refine Finset.sum_congr rfl (fun x hx => ?_)
+      have := Finset.mem_range.mp hx
+      simp [locate, this]
+    have h2 : ∑ x ∈ range ss.sum, f (locate (s :: ss) (s + x)).1 (locate (s :: ss) (s + x)).2
+        = ∑ x ∈ range ss.sum, (fun k c => f (k + 1) c) (locate ss x).1 (locate ss x).2 := by
+      refine Finset.sum_congr rfl (fun x _ => ?_)
+      simp [locate]
+    rw [h1, h2, ih (fun k c => f (k + 1) c), add_comm]
+    simp
+
+/-- non-vacuity of `C05_svd_assemble` / `C05_svd_isometry`: a concrete matrix over ℤ with two stored blocks whose
+per-block factors (signed permutation matrices) satisfy the post-conditions; the theorem then gives `U S VH = a`. -/
+example (qi r qj s : Nat) :
+    let a : BMat Int :=
+      { leg0 := { mods := [1], slices := [0, 1, 2], charges := [[0], [1]], qconj := 1, sorted := true, bunched := true },
+        leg1 := { mods := [1], slices := [0, 1, 2], charges := [[0], [1]], qconj := -1, sorted := true, bunched := true },
+        qtotal := [0], blocks := [⟨0, 0, [[2]]⟩, ⟨1, 1, [[-3]]⟩] }
+    let F : Nat → Blk Int → SvdFac Int := fun i _ => if i = 0 then ⟨[[1]], [2], [[1]]⟩ else ⟨[[-1]], [3], [[1]]⟩
+    ∀ res, svdWorker a F (fun _ => true) {} [0] [0] = .ok res →
+      bmul3 res.u.blocks (svdS (svdKept a F false (fun _ => true))) res.vh.blocks
+        ((svdKept a F false (fun _ => true)).map (fun t => t.2.2.s.length)) qi r qj s = a.bentry qi r qj s := by
+  intro a F res h
+  refine C05_svd_assemble a F (fun _ => true) {} [0] [0] res rfl rfl ?_ h qi r qj s
+  intro bi hbi
+  have : bi = (⟨0, 0, [[2]]⟩, 0) ∨ bi = (⟨1, 1, [[-3]]⟩, 1) := by simpa [a] using hbi
+  rcases this with rfl | rfl <;> intro r s <;> rcases r with _ | r <;> rcases s with _ | s <;>
+    simp [F, Mat.entry]
+
+/-- **QR/LQ, isometry (structural form, any mode)**: `Q` has one block `(qi_e, κ_e)` per element `e` (factorized block
+or identity block of a zero sector), different elements in different row sectors and different inner blocks, every
+block with orthonormal columns ⇒ `Qᴴ Q = 1` on the inner leg. (Instance of the general lemma `biso_assemble`;
+`C05_qr_extra_blocks` shows that the identity blocks of complete mode sit in sectors of their own.) -/
+theorem C05_qr_isometry {α : Type} [CommRing α] [StarRing α] {E : Type} (L : List E) (fQ : E → Blk α) (κ : E → Nat)
+    (sz0 sz : List Nat) (n0 : Nat)
+    (hκ : ∀ e ∈ L, (fQ e).qj = κ e) (hinj : L.Pairwise (fun e e' => κ e ≠ κ e'))
+    (hqi : ∀ e ∈ L, (fQ e).qi < n0) (hrow : ∀ e ∈ L, ∀ e' ∈ L, (fQ e).qi = (fQ e').qi → κ e = κ e')
+    (hiso : ∀ e ∈ L, ∀ c < sz.getD (κ e) 0, ∀ c' < sz.getD (κ e) 0,
+      ∑ r ∈ range (sz0.getD (fQ e).qi 0), star ((fQ e).m.entry r c) * (fQ e).m.entry r c' = if c = c' then 1 else 0)
+    (e e' : E) (he : e ∈ L) (he' : e' ∈ L) (c c' : Nat) (hc : c < sz.getD (κ e) 0) (hc' : c' < sz.getD (κ e') 0) :
+    ∑ qi ∈ range n0, ∑ r ∈ range (sz0.getD qi 0),
+        star (bsum (L.map fQ) qi r (κ e) c) * bsum (L.map fQ) qi r (κ e') c' = if κ e = κ e' ∧ c = c' then 1 else 0 :=
+  biso_assemble L fQ κ sz0 sz n0 hκ hinj hqi hrow hiso e e' he he' c c' hc hc'
+
+/-- **LQ** is QR of the transpose, transposed back (as coded): `L = Rᵀ`, `Q_lq = Q_qrᵀ`; with
+`C05_transpose_bentry` every statement about `qr` transfers to `lq`. -/
+theorem C05_lq {α : Type} [Zero α] [One α] [Mul α] (a : BMat α) (F : Nat → Blk α → Mat α × Mat α) (phase conj : α → α)
+    (o : QrOpts) :
+    (lq a F phase conj o).r = (qr a.transpose F phase conj o).r.transpose
+    ∧ (lq a F phase conj o).q = (qr a.transpose F phase conj o).q.transpose := ⟨rfl, rfl⟩
+
+/-- entries of the transposed matrix (`Array.transpose`), for blocks whose shapes fit the legs -/
+theorem C05_transpose_bentry {α : Type} [CommRing α] (a : BMat α)
+    (hshape : ∀ b ∈ a.blocks, b.m.length = a.leg0.blockSizes.getD b.qi 0)
+    (qi r qj s : Nat) (hr : r < a.leg0.blockSizes.getD qi 0) (hs : s < a.leg1.blockSizes.getD qj 0) :
+    a.transpose.bentry qj s qi r = a.bentry qi r qj s := by
+  simp only [BMat.transpose, bentry_eq_bsum, bsum, List.map_map]
+  apply congrArg
+  apply List.map_congr_left
+  intro b hb
+  simp only [Function.comp, Mat.transpose]
+  by_cases h : b.qi = qi ∧ b.qj = qj
+  · obtain ⟨h1, h2⟩ := h
+    simp only [h1, h2, and_self, ↓reduceIte]
+    rw [entry_ofFn]
+    have := hshape b hb
+    rw [h1] at this
+    rw [if_pos ⟨hs, by rw [this]; exact hr⟩]
+  · have : ¬(b.qj = qj ∧ b.qi = qi) := fun h' => h ⟨h'.2, h'.1⟩
+    simp [h, this]
